@@ -24,7 +24,25 @@ fn res<T>(r: Result<Result<T, String>, Value>) -> (Option<T>, Value) {
     }
 }
 
-fn channels<T: DeserializeOwned + Serialize + PartialEq>(data: &[u8]) -> Value {
+fn channels<T: DeserializeOwned + Serialize + PartialEq>(
+    data: &[u8],
+    broken_first: Option<(&[u8], usize)>,
+) -> Value {
+    // optional history: an earlier decode on this thread whose reader failed midway
+    if let Some((bytes, ok)) = broken_first {
+        let _ = guarded(|| {
+            Json::from_reader::<_, T>(crate::util::FailingReader { data: bytes, pos: 0, ok })
+                .map_err(|e| e.to_string())
+        });
+        let _ = guarded(|| {
+            JsonPretty::from_reader::<_, T>(crate::util::FailingReader { data: bytes, pos: 0, ok })
+                .map_err(|e| e.to_string())
+        });
+        let _ = guarded(|| {
+            serde_json::from_reader::<_, T>(crate::util::FailingReader { data: bytes, pos: 0, ok })
+                .map_err(|e| e.to_string())
+        });
+    }
     let mut ch = serde_json::Map::new();
     let mut vals: Vec<(String, T)> = Vec::new();
     let mut put = |name: &str, r: Result<Result<T, String>, Value>| {
@@ -165,21 +183,32 @@ pub fn api_rt(case: &Value) -> Value {
 /// {type, text}
 pub fn serde_op(case: &Value) -> Value {
     let data = bytes_of(&case["text"]);
+    let broken_bytes = case.get("broken_first").map(|b| bytes_of(&b["text"]));
+    let broken_ok = case
+        .get("broken_first")
+        .and_then(|b| b["ok"].as_u64())
+        .unwrap_or(0) as usize;
+    let bf = broken_bytes.as_ref().map(|b| (&b[..], broken_ok));
+    serde_dispatch(case, &data, bf)
+}
+
+fn serde_dispatch(case: &Value, data: &[u8], bf: Option<(&[u8], usize)>) -> Value {
+    let data = data.to_vec();
     match case["type"].as_str().unwrap_or("") {
-        "metablock" => channels::<Metablock>(&data),
-        "wrapper" => channels::<MetadataWrapper>(&data),
-        "layout" => channels::<LayoutMetadata>(&data),
-        "link" => channels::<LinkMetadata>(&data),
-        "pubkey" => channels::<PublicKey>(&data),
-        "signature" => channels::<Signature>(&data),
-        "keyid" => channels::<KeyId>(&data),
-        "rule" => channels::<ArtifactRule>(&data),
-        "step" => channels::<Step>(&data),
-        "inspection" => channels::<Inspection>(&data),
-        "byproducts" => channels::<ByProducts>(&data),
-        "command" => channels::<Command>(&data),
-        "statement" => channels::<StatementWrapper>(&data),
-        "predicate" => channels::<PredicateWrapper>(&data),
+        "metablock" => channels::<Metablock>(&data, bf),
+        "wrapper" => channels::<MetadataWrapper>(&data, bf),
+        "layout" => channels::<LayoutMetadata>(&data, bf),
+        "link" => channels::<LinkMetadata>(&data, bf),
+        "pubkey" => channels::<PublicKey>(&data, bf),
+        "signature" => channels::<Signature>(&data, bf),
+        "keyid" => channels::<KeyId>(&data, bf),
+        "rule" => channels::<ArtifactRule>(&data, bf),
+        "step" => channels::<Step>(&data, bf),
+        "inspection" => channels::<Inspection>(&data, bf),
+        "byproducts" => channels::<ByProducts>(&data, bf),
+        "command" => channels::<Command>(&data, bf),
+        "statement" => channels::<StatementWrapper>(&data, bf),
+        "predicate" => channels::<PredicateWrapper>(&data, bf),
         t => json!({"harness_error": format!("unknown type {}", t)}),
     }
 }
